@@ -272,7 +272,7 @@ impl Prop for C14 {
     fn rule(&self) -> String {
         "words built from syllables = {12 cluster shapes: single consonant, hasanta conjuncts of 2-3, ro-fola, zo-fola, র+zo-fola, ro+zo-fola, one-key ক্ষ, reph (new style key first / old style key after the cluster)} \
          x {no sign, া ী ু ৃ, left-standing ি ে ৈ, two-part ো=ে…া, ৌ=ে…ৌ, ৌ=ে…ৗ} x [chandrabindu], plus independent vowels (typed directly, and as hasanta + sign: উ আ ই এ), a consonant closed by an explicit hasanta (doubled, or + ZWNJ key), punctuation, digit: all words of 1-2 syllables (a strided quarter of the 2-syllable words in quick), in thorough a strided eighth of all 3-syllable words, and random words of 3-5 syllables, \
-         under the 16 settings of auto-vowel/auto-chandra/traditional/old-reph; typed in typewriter order with the option on and in Unicode order with it off; \
+         under the 16 settings of auto-vowel/auto-chandra/traditional/old-reph; typed in typewriter order with the option on and in Unicode order with it off (random words of 1-4 syllables again with the candidate list, smart quotes + English, ANSI, and list + ANSI + number pad switched on in both contexts; with a list the composed text is its first candidate); \
          every pending sign checked for not-shown / ongoing; a strided third of the words repeated with <sign, backspace> inserted before a syllable. \
          distinct_nontrivial = distinct (final text, options) pairs compared."
             .into()
